@@ -207,7 +207,33 @@ func TestVerifC34Stress(t *testing.T) {
 						}(a, b, i*10+j)
 					}
 				}
-				// operators: the read-side control API (what the ssh debug commands and embedding applications call) on every node
+				// the two peers that only reach each other through the relay keep re-making their tunnel to the relay (and the
+			// relay its tunnels to them), so relayed sends and forwards run against peers that hold several tunnels
+			for _, pr := range [][2]*vnNode{{nodes[3], nodes[1]}, {nodes[4], nodes[1]}, {nodes[1], nodes[3]}, {nodes[1], nodes[4]}} {
+				wg.Add(1)
+				go func(n, o *vnNode, k int) {
+					defer wg.Done()
+					rng := verifkit.SubRand("C34relaychurn", seedBase+k)
+					for {
+						select {
+						case <-ctx.Done():
+							return
+						default:
+						}
+						time.Sleep(time.Duration(200+rng.IntN(600)) * time.Millisecond)
+						if ctx.Err() != nil {
+							return
+						}
+						if rng.IntN(4) == 0 {
+							n.C.CloseTunnel(o.Ident.Addr(), rng.IntN(2) == 0)
+						} else {
+							n.C.ReHandshake(o.Ident.Addr())
+						}
+						churns.Add(1)
+					}
+				}(pr[0], pr[1], int(pr[0].Addr.Port())+int(pr[1].Addr.Addr().As4()[3]))
+			}
+			// operators: the read-side control API (what the ssh debug commands and embedding applications call) on every node
 				for i, n := range nodes {
 					wg.Add(1)
 					go func(i int, n *vnNode) {
